@@ -224,8 +224,8 @@ func ZZ_C05_refresh_step() {
 	presenter := "c1"
 	if free(dimPresenter) {
 		// the owner, another confidential client, or a registered public client that owns nothing
-		presenter = []string{"c1", "c2", "c3"}[zz.Choice("presenter", 3)]
-		wd.Store.Clients["c3"] = &fosite.DefaultClient{ID: "c3", Public: true, GrantTypes: []string{"authorization_code", "refresh_token"},
+		presenter = []string{"c1", "c2", "C1"}[zz.Choice("presenter", 3)]
+		wd.Store.Clients["C1"] = &fosite.DefaultClient{ID: "C1", Public: true, GrantTypes: []string{"authorization_code", "refresh_token"},
 			Scopes: append([]string{}, c1.Scopes...), Audience: append([]string{}, c1.Audience...)}
 	}
 	form := url.Values{"grant_type": {"refresh_token"}, "refresh_token": {rt0}}
